@@ -2,7 +2,7 @@
    The model (Machine.v, Merge.v, ArrayShift.v) is executable Gallina; its extraction is run against the real
    momo code on every check (props/C10/harness.cpp vs ocaml/driver.ml). *)
 From Coq Require Import ZArith List Permutation.
-From C10 Require Import Machine Merge MergeProofs ArrayShift ArrayProofs MapModel MapProofs FastMerge.
+From C10 Require Import Machine Merge MergeProofs ArrayShift ArrayProofs MapModel MapProofs FastMerge FastPtr FastPtrProofs BulkOps.
 Import ListNotations.
 Local Open Scope Z_scope.
 
@@ -323,3 +323,119 @@ Theorem C10_no_copy_when_movable_map_merge :
     no_copy (tr w) -> no_copy (tr (p_w (prun kc vc n (pinit src dst w shape)))).
 Proof. exact pmerge_no_copy. Qed.
 Print Assumptions C10_no_copy_when_movable_map_merge.
+
+(* ---- pvMergeToLinear with multi-key trees *)
+Theorem C10_merge_finished_source_empty_linear_multi :
+  forall c src dst w shape n,
+    l_stat (lrun c true n (linit src dst w shape)) = Finished -> lsrc_items (lrun c true n (linit src dst w shape)) = [].
+Proof. exact lmerge_multi_finished_empty. Qed.
+Print Assumptions C10_merge_finished_source_empty_linear_multi.
+
+Theorem C10_merge_sorted_linear_multi :
+  forall c src dst w shape n, ksle src -> ksle dst -> ksle (ldst_items (lrun c true n (linit src dst w shape))).
+Proof. exact lmerge_multi_sorted. Qed.
+Print Assumptions C10_merge_sorted_linear_multi.
+
+(* ---- pointer-level model of pvMergeFast's joining path (FastPtr.v) *)
+(* the separator leaves its leaf (TreeNode::Remove): the other items keep their order; only a copy-only item can make the
+   remover throw; a movable separator is never copied (rotation to the back + relocation) *)
+Theorem C10_separator_leaf_remove :
+  forall c w items idx w' r, leaf_remove c w items idx = (w', r) ->
+    match r with
+    | Some (e, rest) => e = nth idx items 0%Z /\ rest = firstn idx items ++ skipn (S idx) items
+    | None => nothrow_reloc c = false
+    end.
+Proof. exact leaf_remove_spec. Qed.
+Print Assumptions C10_separator_leaf_remove.
+
+Theorem C10_no_copy_when_movable_separator :
+  forall c w items idx w' r, nothrow_reloc c = true -> no_copy (tr w) -> leaf_remove c w items idx = (w', r) -> no_copy (tr w').
+Proof. exact leaf_remove_no_copy. Qed.
+Print Assumptions C10_no_copy_when_movable_separator.
+
+(* valid and usable after failure, pointer level: whenever pvMergeFast throws (any node allocation of the joining path, or the
+   relocation of the separator), for every heap, spine geometry, capacity and schedule, the heap is exactly the heap before the
+   call -- in particular the root of the lower tree has a null parent again and every stacked node has been freed *)
+Theorem C10_fast_merge_failure_restores_heap :
+  forall h0 root1 c0, lookup h0 root1 = Some c0 -> c_parent c0 = None ->
+  forall c w root2 start2 leaf1 swap maxcap fuel fresh w' h',
+    NoDup fresh -> (forall a, In a fresh -> lookup h0 a = None) ->
+    merge_fast_ptr c w h0 root1 root2 start2 leaf1 swap maxcap fuel fresh = (w', FThrow h') ->
+    forall y, lookup h' y = lookup h0 y.
+Proof. exact merge_fast_failure_restores_heap. Qed.
+Print Assumptions C10_fast_merge_failure_restores_heap.
+
+Theorem C10_fast_merge_failure_valid_and_unchanged :
+  forall c w h0 root1 c0 root2 start2 leaf1 swap maxcap fuel fresh w' h',
+    lookup h0 root1 = Some c0 -> c_parent c0 = None ->
+    NoDup fresh -> (forall a, In a fresh -> lookup h0 a = None) ->
+    merge_fast_ptr c w h0 root1 root2 start2 leaf1 swap maxcap fuel fresh = (w', FThrow h') ->
+    (exists c1, lookup h' root1 = Some c1 /\ c_parent c1 = None) /\
+    (forall f r p, wfb f maxcap h' r p = wfb f maxcap h0 r p) /\
+    (forall f r, inorder f h' r = inorder f h0 r) /\
+    (forall a, In a fresh -> lookup h' a = None).
+Proof. exact merge_fast_failure_valid_and_unchanged. Qed.
+Print Assumptions C10_fast_merge_failure_valid_and_unchanged.
+
+(* the seeded clean-up (top-down, SetParent(nullptr) lost) does NOT restore the heap: the root keeps a dangling parent *)
+Theorem C10_seeded_cleanup_refuted :
+  let h0 := [(1%nat, C None [5%Z] [])] in
+  let h1 := set_parent (upd h0 9%nat (C None [] [Ptr 1%nat])) 1%nat (Some 9%nat) in
+  let hbad := destroy_down 5 h1 9%nat 1%nat in
+  lookup hbad 9%nat = None /\ lookup hbad 1%nat = Some (C (Some 9%nat) [5%Z] []) /\ lookup hbad 1%nat <> lookup h0 1%nat.
+Proof. exact seed_a_cleanup_leaves_dangling_parent. Qed.
+Print Assumptions C10_seeded_cleanup_refuted.
+
+(* the pointer surgery after the try block (AcceptBackItem, SetChild, SetParent), bounded: for both directions and every
+   full / not-full pattern of a tree-2 spine of depth 0..3 (join at any level, or a new root), the returned root has a null
+   parent, every cell points back to its parent, child counts = item counts + 1, no node exceeds the capacity, and the
+   in-order contents are the concatenation of the two trees in key order *)
+Theorem C10_fast_merge_success_sweep_partial : sweep_success = true.
+Proof. exact sweep_success_ok. Qed.
+Print Assumptions C10_fast_merge_success_sweep_partial.
+
+(* ---- multi-element Insert(range / initializer list) and Remove(predicate) of hash containers (BulkOps.v),
+   for every schedule, category and step -- hence also in the state left behind by an exception *)
+(* the container holds its original items, untouched and in place, followed by copies of arguments: a subset of
+   original + inserted, and no original item disappeared *)
+Theorem C10_insert_range_subset :
+  forall c args dst w n, exists ins, i_dst (irun c n (IS args dst w Running)) = dst ++ ins /\ incl ins args.
+Proof. exact insert_range_subset. Qed.
+Print Assumptions C10_insert_range_subset.
+
+Theorem C10_insert_range_unique_nodup :
+  forall c args dst w n, NoDup (map key dst) -> NoDup (map key (i_dst (irun c n (IS args dst w Running)))).
+Proof. exact insert_range_unique_nodup. Qed.
+Print Assumptions C10_insert_range_unique_nodup.
+
+Theorem C10_insert_range_finished_complete :
+  forall c args dst w n, i_stat (irun c n (IS args dst w Running)) = Finished ->
+    forall a, In a args -> has_key (i_dst (irun c n (IS args dst w Running))) (key a) = true.
+Proof. exact insert_range_finished_complete. Qed.
+Print Assumptions C10_insert_range_finished_complete.
+
+(* Remove(predicate): what is left plus what was removed is the original contents, every removed item satisfies the
+   predicate (so the container is a sub-multiset of the original); keys stay unique; a completed call leaves no matching
+   item; a category with a move constructor is never copied *)
+Theorem C10_remove_pred_subset :
+  forall c p src w n,
+    Permutation (rsrc_items (rrun c p n (rinit src w)) ++ r_removed (rrun c p n (rinit src w))) (concat src) /\
+    Forall (fun y => p y = true) (r_removed (rrun c p n (rinit src w))).
+Proof. exact remove_pred_subset. Qed.
+Print Assumptions C10_remove_pred_subset.
+
+Theorem C10_remove_pred_unique_nodup :
+  forall c p src w n, NoDup (map key (concat src)) -> NoDup (map key (rsrc_items (rrun c p n (rinit src w)))).
+Proof. exact remove_pred_unique_nodup. Qed.
+Print Assumptions C10_remove_pred_unique_nodup.
+
+Theorem C10_remove_pred_finished_complete :
+  forall c p src w n, r_stat (rrun c p n (rinit src w)) = Finished ->
+    forall y, In y (rsrc_items (rrun c p n (rinit src w))) -> p y = false.
+Proof. exact remove_pred_finished_complete. Qed.
+Print Assumptions C10_remove_pred_finished_complete.
+
+Theorem C10_no_copy_when_movable_remove_pred :
+  forall c p src w n, nothrow_reloc c = true -> no_copy (tr w) -> no_copy (tr (r_w (rrun c p n (rinit src w)))).
+Proof. exact remove_pred_no_copy. Qed.
+Print Assumptions C10_no_copy_when_movable_remove_pred.
